@@ -11,13 +11,18 @@ pub fn install_panic_hook() {
         let site = match info.location() {
             Some(l) => {
                 let f = l.file();
-                // canonical: path relative to the repository's src/, or crate-name/file for deps
-                let f = if let Some(i) = f.find("/src/") {
-                    let (head, tail) = f.split_at(i + 5);
-                    if head.contains("/registry/") {
-                        let krate = head.trim_end_matches("/src/").rsplit('/').next().unwrap_or("dep");
-                        format!("{}/{}", krate, tail)
-                    } else { tail.to_string() }
+                // canonical: path relative to the repository's src/, or <crate-dir>/<file> for deps
+                let root = concat!(env!("RWS_SRC_RESOLVED"), "/");
+                let f = if let Some(rest) = f.strip_prefix(root) {
+                    rest.to_string()
+                } else if f.contains("/registry/") {
+                    match f.rfind("/src/") {
+                        Some(i) => {
+                            let krate = f[..i].rsplit('/').next().unwrap_or("dep");
+                            format!("{}/{}", krate, &f[i + 5..])
+                        }
+                        None => f.to_string(),
+                    }
                 } else { f.to_string() };
                 format!("{}:{}", f, l.line())
             }
